@@ -70,6 +70,18 @@ class _NullSelector:
         pass
 
 
+_KEEP = []
+
+
+def _keep_task(loop, coro, **kw):
+    """documented task-factory hook: real asyncio.Task objects, kept alive for the life of the process.  (When a task
+    is garbage-collected the loop's WeakSet callback dereferences a weak reference, and CrossHair runs gc.collect() on
+    every such dereference.)"""
+    t = asyncio.Task(coro, loop=loop, **kw)
+    _KEEP.append(t)
+    return t
+
+
 class DetLoop(asyncio.BaseEventLoop):
     """The real asyncio scheduling core (BaseEventLoop: call_soon, _run_once, Task/Future wake-ups) without the
     selector/self-pipe I/O layer and with a constant clock: CrossHair makes time.* symbolic, which the stock loop
@@ -78,6 +90,7 @@ class DetLoop(asyncio.BaseEventLoop):
     def __init__(self):
         super().__init__()
         self._selector = _NullSelector()
+        self.set_task_factory(_keep_task)
 
     def time(self):
         return 0.0
